@@ -49,6 +49,8 @@ pub enum Step {
     Yield,
     Gate(usize),
     KillSelf,
+    /// the hook asks its own actor to stop gracefully (documented pattern); bounded, because the marker needs a mailbox slot
+    StopSelf,
     KillPeer(usize),
     StopPeer(usize),
     /// awaited in-actor send
